@@ -43,12 +43,21 @@ def step (s : State) : List String → State × String
     (s', s!"seed {showState s'}")
   | ["next"] =>
     let (v, s') := next exact s
-    (s', s!"next {bitsOfInt v} #{tagOf s}")
+    let z := if v = 0 then "+zero" else if v = B - 1 then "+max" else ""
+    (s', s!"next {bitsOfInt v} #{tagOf s}{z}")
   | ["skip", k] =>
     let (s', h, lo, hi) := skipLoop (nat! k) s 0 B (-1)
     (s', s!"skip {h} {bitsOfInt lo} {bitsOfInt hi}")
   | ["differ", a, b] =>
     (s, s!"differ {firstDiff 24 0 (seedState exact (intOf a)) (seedState exact (intOf b))}")
+  | "state" :: rest =>
+    if rest.length = 17 then
+      let items := (rest.take 13).map (fun w => Item.d (intOf w))
+        ++ (rest.drop 13).map (fun w => Item.u (nat! w))
+      match restore items with
+      | some s' => (s', s!"state {showState s'}")
+      | none => (s, "state-error")
+    else (s, "bad-op")
   | ["dump"] => (s, s!"dump {showState s}")
   | ["restore"] =>
     match restore (dump s) with
